@@ -1,4 +1,7 @@
+#[cfg(not(kani))]
 use std::collections::HashMap;
+#[cfg(kani)]
+use crate::helpers::vmap::HashMap;
 
 extern crate lazy_static;
 use lazy_static::lazy_static;
